@@ -229,19 +229,27 @@ def run(ctx):
                         violations.append({"what": f"result warning for {fid} although hint and docstring give the same type",
                                            "package": p.name, "files": files if len(violations) < 3 else None, "finding": "result_warn_always"})
                         break
+    # the translation of docstring types (Model/DocTypes.v against _griffe_annotation_to_api_type)
+    import doctypes
+    d_dis, d_vio, d_n, d_stats = doctypes.run_l0(ctx["seed"], tier)
+    disagreements += d_dis
+    violations += d_vio
     return {
-        "evaluations": len(jobs) + len(cases),
+        "evaluations": len(jobs) + len(cases) + d_n,
         "distinct_nontrivial": n_both,
         "rule": "generated packages with structured docstrings (numpydoc, google, reST) whose parameters/results have a hint, a docstring "
                 "type, both (equal or different) or neither; each analysed under plaintext (hints only) and under the 2x2 grid of "
                 "preference x warning; per function the model's reconciliation is run on (hint types, docstring types) and compared with "
                 "the API JSON and the WARNING records; non-trivial = a parameter with both a hint and a docstring type; counted per "
-                "parameter",
+                "parameter; plus every docstring type expression of rich generated docstrings and a list of hand-written type strings, "
+                "translated by the model of _griffe_annotation_to_api_type and by the implementation (under a time limit)",
         "samples": samples or ["<none>"],
         "disagreements": disagreements,
         "violations": violations,
-        "stats": {"packages": npk, "functions": n_decl, "params_with_both": n_both, "real_conflicts": n_conflict, "model_cases": len(cases)},
-        "assumptions": ["griffe's parse of the docstring sections is taken as given (read from the API JSON's docstring fields)"],
+        "stats": {"packages": npk, "functions": n_decl, "params_with_both": n_both, "real_conflicts": n_conflict, "model_cases": len(cases),
+                  "docstring_type_translations_compared": d_n, **d_stats},
+        "assumptions": ["griffe's parse of the docstring sections and its parse_annotation are taken as given (inputs of the docstring "
+                        "type model); the translation of the parsed expression to an API type is modelled and compared"],
     }
 
 
